@@ -1,6 +1,8 @@
 import Proofs.ZoneTxnFrame
 import Proofs.ZoneTxnValue
 import Proofs.ZoneTxnShipped
+import Proofs.ZoneTxnFlatten
+import Proofs.ZoneTxnBTree
 /-!
 # C10 — Zone transactions match a reference model and are all-or-nothing
 
@@ -10,11 +12,14 @@ Theorems of record.  `Model.ZT` (files `Model/ZoneTxn.lean`, `Model/ZoneNode.lea
 `SZone = List ((owner, type, covers) × rdataset)` with `put / delRds / delName` and the operations `sStep`.
 The constants (`ConstsC10.*`) are regenerated from the working tree on every run.
 
-The two recorded decision points of the unchanged tree (DESIGN §6 D09, D10) are the parameters `Cfg.d09/d10`;
-`GoodCfg` is the intended variant.  The refinement theorem is stated for `GoodCfg`; for the as-shipped variant
-the counter-examples `as_shipped_d09_violates` / `as_shipped_d10_violates` are proved at the witnesses of
-`corpus/C10`, and `as_shipped_native_partial` shows the two variants coincide on owner names given in the
-zone's own spelling.
+Decision points.  `Cfg.d09` / `Cfg.d10` are LEGACY variants of the model (the code before the repairs 48a5b1a and
+32c445c); the code as it now is has both `false`, the harness always drives the model that way, and the legacy
+variants survive only in the clearly named `legacy_*` theorems (counter-examples at the old witnesses, and
+agreement on natively spelled owners).  `Cfg.gn` is the one decision point still open in the code:
+`Transaction.get_node` lacks `_check_ended()`.  `GoodCfg` is all three `false`.
+`txn_refines_spec` is the full statement (`GoodCfg`); `current_code_refines_spec` is the statement for the code
+as it now is (any `gn`), whose only guard is that `get_node` is not called on an ended transaction;
+`get_node_after_end_counterexample` is the counter-example for `gn = true`.
 -/
 namespace C10
 open Model Model.ZT
@@ -32,6 +37,11 @@ theorem consts_rfc :
     ConstsC10.cnameTypes = [5] ∧ ConstsC10.neutralTypes = [25, 47, 50] ∧
       ConstsC10.singletons = [5, 6, 30, 39, 47] ∧ ConstsC10.rrsig = 46 ∧ ConstsC10.sig = 24 ∧ ConstsC10.soa = 6 ∧
       ConstsC10.serialBits = 32 ∧ ConstsC10.zeroSerialBecomes = 1 ∧ ConstsC10.maxTTL = 4294967295 := by decide
+
+/-- error family of a result, for decidable statements -/
+def errOf : Res → Option Err
+  | .error e => some e
+  | .ok _ => none
 
 /-! ## the value rules of the reference model -/
 
@@ -138,35 +148,84 @@ example : newSerial 4294967295 1 true = .ok 1 ∧ newSerial 7 4294967296 false =
 
 /-- "Any sequence of add, replace, delete, delete-exact and serial-update operations in a write transaction
 leaves the zone, after commit, with exactly the content a simple reference model predicts … identically for
-plain, versioned and B-tree zones" (one model for the three classes, tied to each by the correspondence check):
-for every history of API calls in any argument form, every exit (clean or through an exception), writer or
-reader, the results and error families equal the reference model's, and the published zone afterwards simulates
-the reference zone (same rdataset under every (owner, type, covers), same set of owners — hence no empty
-nodes).  The conclusion re-establishes the hypotheses, so it composes over successive transactions. -/
+plain, versioned and B-tree zones" (the model has no zone-class parameter: one model for the three classes, each
+tied to it by the correspondence check; the B-tree version class' own put/delete paths are modelled in
+`Model/ZoneBTree.lean` and shown content-equal in `btree_content_same`):
+for every history of API calls (`add/replace/delete/delete_exact` in any argument form, well-formed or not, with
+or without a vetoing check hook; `update_serial`, `get`, `name_exists`, `get_node`, `changed`, iteration,
+`commit`, `rollback`), every exit (clean or through an exception), writer or reader:
+every result agrees with the reference model's (`ResRel`: equal — error family, rdataset, flag — or, for
+iteration and `get_node`, the same content in whatever order), and the published zone afterwards simulates the
+reference zone (same rdataset under every (owner, type, covers), same set of owners — hence no empty nodes).
+The conclusion re-establishes the hypotheses, so it composes over successive transactions. -/
 theorem txn_refines_spec (cfg : Cfg) (hg : GoodCfg cfg) (z : Nodes) (sz : SZone)
     (hz : Sim cfg.rdclass z sz) (hi : Inv cfg.rdclass z) (ro : Bool) (ops : List Op) (exc : Bool) :
     let s0 := if ro then beginRead z else beginWrite z
     let t0 := if ro then sBeginRead sz else sBeginWrite sz
     let m := run cfg s0 ops
     let r := sRun cfg t0 (ops.map toSOp)
-    m.2.map absRes = r.2 ∧
+    AllRel (ResRel cfg.rdclass) m.2 r.2 ∧
       Sim cfg.rdclass (exitTxn m.1 exc).zone (sExit r.1 exc).zone ∧ Inv cfg.rdclass (exitTxn m.1 exc).zone := by
   intro s0 t0 m r
   have h0 : TSim cfg s0 t0 := by
     cases ro
-    · exact { zone := hz, ver := hz, izone := hi, iver := hi, ro := rfl, ended := rfl, unchanged := fun _ => rfl }
-    · exact { zone := hz, ver := hz, izone := hi, iver := hi, ro := rfl, ended := rfl, unchanged := fun _ => rfl }
+    · exact { zone := hz, ver := hz, izone := hi, iver := hi, ro := rfl, ended := rfl, changed := rfl,
+              unchanged := fun _ => rfl }
+    · exact { zone := hz, ver := hz, izone := hi, iver := hi, ro := rfl, ended := rfl, changed := rfl,
+              unchanged := fun _ => rfl }
   obtain ⟨h1, h2⟩ := run_refines cfg hg ops s0 t0 h0
   have h3 := exit_refines cfg m.1 r.1 h1 exc
   exact ⟨h2, h3.zone, h3.izone⟩
 
-/-- non-vacuity: the empty zone simulates the empty map (and every zone reachable from it by transactions does,
-by the theorem itself) -/
-example : Sim 1 [] [] ∧ Inv 1 [] :=
-  ⟨⟨fun _ _ _ => rfl, fun _ => rfl⟩, Inv.nil 1⟩
+/-- Every well-formed concrete zone (owner keys distinct, no empty node, one class, (type, covers) distinct within
+a node) is simulated by its flattening — so the refinement applies to arbitrary initial zones. -/
+theorem sim_flatten (cls : Nat) (z : Nodes) (h : WfZone cls z) : Sim cls z (flatten z) ∧ Inv cls z :=
+  Model.ZT.sim_flatten cls z h
+
+/-- `txn_refines_spec` from any well-formed initial zone, against the reference run from its flattening. -/
+theorem txn_refines_spec_concrete (cfg : Cfg) (hg : GoodCfg cfg) (z : Nodes) (hw : WfZone cfg.rdclass z)
+    (ro : Bool) (ops : List Op) (exc : Bool) :
+    let m := run cfg (if ro then beginRead z else beginWrite z) ops
+    let r := sRun cfg (if ro then sBeginRead (flatten z) else sBeginWrite (flatten z)) (ops.map toSOp)
+    AllRel (ResRel cfg.rdclass) m.2 r.2 ∧
+      Sim cfg.rdclass (exitTxn m.1 exc).zone (sExit r.1 exc).zone ∧ Inv cfg.rdclass (exitTxn m.1 exc).zone :=
+  txn_refines_spec cfg hg z (flatten z) (Model.ZT.sim_flatten _ z hw).1 (Model.ZT.sim_flatten _ z hw).2 ro ops exc
+
+/-- non-vacuity: a zone `ex.` (relativized) with SOA + NSEC + RRSIG(NSEC) at the apex, a CNAME with its
+RRSIG(CNAME) and NSEC at `a`, and two A records at `b`, is well formed -/
+example : WfZone 1
+    [ ([], [ { rdclass := 1, rdtype := 6, covers := 0, ttl := 3600, items := [⟨1, 6, 0, 2024⟩] },
+             { rdclass := 1, rdtype := 47, covers := 0, ttl := 300, items := [⟨1, 47, 0, 1⟩] },
+             { rdclass := 1, rdtype := 46, covers := 47, ttl := 300, items := [⟨1, 46, 47, 1⟩, ⟨1, 46, 47, 2⟩] } ]),
+      ([[97]], [ { rdclass := 1, rdtype := 5, covers := 0, ttl := 60, items := [⟨1, 5, 0, 1⟩] },
+                 { rdclass := 1, rdtype := 46, covers := 5, ttl := 60, items := [⟨1, 46, 5, 7⟩] },
+                 { rdclass := 1, rdtype := 47, covers := 0, ttl := 300, items := [⟨1, 47, 0, 2⟩] } ]),
+      ([[98]], [ { rdclass := 1, rdtype := 1, covers := 0, ttl := 300, items := [⟨1, 1, 0, 1⟩, ⟨1, 1, 0, 2⟩] } ]) ] := by
+  unfold WfZone NodeInv
+  decide
+
+/-- The code as it now is (repairs 48a5b1a, 32c445c in: `d09 = d10 = false`; `get_node` still unguarded or not:
+any `gn`): every history in which `get_node` is not called on an already ended transaction runs exactly as under
+the intended variant, hence refines the reference model — owner names in either spelling, no other guard.
+Full statement (false while `gn = true`, see `get_node_after_end_counterexample`): the same without `hlate`,
+which is `txn_refines_spec`. -/
+theorem current_code_refines_spec (cfg : Cfg) (h09 : cfg.d09 = false) (h10 : cfg.d10 = false) (z : Nodes)
+    (hw : WfZone cfg.rdclass z) (ro : Bool) (ops : List Op) (exc : Bool)
+    (hlate : lateGetNode cfg (if ro then beginRead z else beginWrite z) ops = false) :
+    let m := run cfg (if ro then beginRead z else beginWrite z) ops
+    let r := sRun (closedCfg cfg) (if ro then sBeginRead (flatten z) else sBeginWrite (flatten z)) (ops.map toSOp)
+    AllRel (ResRel cfg.rdclass) m.2 r.2 ∧
+      Sim cfg.rdclass (exitTxn m.1 exc).zone (sExit r.1 exc).zone ∧ Inv cfg.rdclass (exitTxn m.1 exc).zone := by
+  intro m r
+  have hrun : m = run (closedCfg cfg) (if ro then beginRead z else beginWrite z) ops := run_gn cfg ops _ hlate
+  have hg : GoodCfg (closedCfg cfg) := ⟨h09, h10, rfl⟩
+  have h := txn_refines_spec_concrete (closedCfg cfg) hg z hw ro ops exc
+  rw [hrun]
+  exact h
 
 /-- "reads inside a transaction see its own writes": after any prefix of the history, `get` and `name_exists`
-return what the reference model holds at that point (which `reference_map_rules` describes write by write). -/
+return what the reference model holds at that point (which `reference_map_rules` describes write by write);
+`get_node` and iteration likewise, by `txn_refines_spec`. -/
 theorem reads_see_writes (cfg : Cfg) (hg : GoodCfg cfg) (z : Nodes) (sz : SZone)
     (hz : Sim cfg.rdclass z sz) (hi : Inv cfg.rdclass z) (ops : List Op) (n : Name) (t c : Nat) :
     let s := (run cfg (beginWrite z) ops).1
@@ -175,28 +234,55 @@ theorem reads_see_writes (cfg : Cfg) (hg : GoodCfg cfg) (z : Nodes) (sz : SZone)
       (step cfg s (.nameExists n)).2 = (sStep cfg r (.nameExists n)).2 := by
   intro s r
   have h0 : TSim cfg (beginWrite z) (sBeginWrite sz) :=
-    { zone := hz, ver := hz, izone := hi, iver := hi, ro := rfl, ended := rfl, unchanged := fun _ => rfl }
-  have h1 := (run_refines cfg hg ops _ _ h0).1
-  have hget := (step_refines cfg hg s r h1 (.get n t c)).2
-  have hex := (step_refines cfg hg s r h1 (.nameExists n)).2
-  simp only [toSOp] at hget hex
-  constructor
-  · rw [← hget]
-    simp only [step]
-    split
-    · rfl
-    · split <;> rfl
-  · rw [← hex]
-    simp only [step]
-    split
-    · rfl
-    · split <;> rfl
+    { zone := hz, ver := hz, izone := hi, iver := hi, ro := rfl, ended := rfl, changed := rfl,
+      unchanged := fun _ => rfl }
+  exact reads_refine cfg s r (run_refines cfg hg ops _ _ h0).1 n t c
 
 /-- a write is read back: the reference model returns the rdataset just stored -/
 theorem read_after_replace (cfg : Cfg) (t : STxn) (n k : Name) (r : Rdataset) (hv : validateName cfg n = .ok k)
     (he : t.ended = false) (hr : t.readOnly = false) (hc : r.rdclass = cfg.rdclass) (hs : r.rdtype ≠ ConstsC10.soa) :
     (sStep cfg (sStep cfg t (.replace n r false false)).1 (.get n r.rdtype r.covers)).2 = .ok (.rds (some r)) := by
   simp [sStep, sPut, he, hr, hc, hs, hv, SZone.put, SZone.get]
+
+/-- "identically for plain, versioned and B-tree zones": plain and versioned zones share `dns.zone.WritableVersion`
+(the model's `putRdataset / deleteRdataset / deleteNode`); the B-tree zone has its own version class whose put and
+delete paths interleave the content operation with flag, delegation-index and `changed` bookkeeping
+(`Model/ZoneBTree.lean`, following `dns/btreezone.py`).  Whatever the name-order oracles `P` of that bookkeeping
+answer, its content is the plain model's: the same node map after `put_rdataset`, after `delete_rdataset`
+(validated key, emptied node removed) and after `delete_node`, and `changed` becomes non-empty in exactly the
+same cases (so a commit publishes in the same cases). -/
+theorem btree_content_same (P : BParams) (cls : Nat) (v : BVer) (key : Name) :
+    (∀ r, bContent (bPut P v key r).nodes =
+          nodesSet (bContent v.nodes) key (((nodesGet (bContent v.nodes) key).getD []).replace r) ∧
+        (bPut P v key r).changed ≠ []) ∧
+    (∀ t c, bContent (bDelRds P cls v key t c).nodes = delRdsM cls (bContent v.nodes) key t c ∧
+        (bDelRds P cls v key t c).changed ≠ []) ∧
+    (bContent (bDelNode P v key).nodes =
+        (if (nodesGet (bContent v.nodes) key).isSome then nodesErase (bContent v.nodes) key else bContent v.nodes) ∧
+      ((nodesGet (bContent v.nodes) key).isSome = true → (bDelNode P v key).changed ≠ []) ∧
+      ((nodesGet (bContent v.nodes) key).isSome = false → (bDelNode P v key).changed = v.changed)) :=
+  ⟨fun r => btree_put P v key r, fun t c => btree_delete_rdataset P cls v key t c, btree_delete_node P v key⟩
+
+/-- the plain model's `put_rdataset / delete_rdataset` are those expressions (so the two statements meet) -/
+theorem plain_version_ops (cfg : Cfg) (hg : GoodCfg cfg) (v : Nodes) (name key : Name) (hv : validateName cfg name = .ok key) :
+    (∀ r, putRdataset cfg v name r = .ok (nodesSet v key (((nodesGet v key).getD []).replace r))) ∧
+    (∀ t c, deleteRdataset cfg v name t c = (delRdsM cfg.rdclass v key t c, none)) ∧
+    deleteNode cfg v name = .ok (if (nodesGet v key).isSome then (nodesErase v key, true) else (v, false)) := by
+  refine ⟨fun r => by simp [putRdataset, hv], fun t c => deleteRdataset_good cfg hg v name key t c hv, ?_⟩
+  unfold deleteNode; simp only [hv]; split <;> rfl
+
+/-- non-vacuity: a delegation `b` (NS only) with glue `a.b`; deleting the NS rdataset at rdataset granularity
+removes the node in the B-tree instance too (the seeded change C10-a kept it as an empty node) -/
+example :
+    let P : BParams := { isOrigin := fun k => k == [], isGlue := fun d k => d.any (fun c => k != c && k.drop (k.length - c.length) == c),
+                         below := fun k n => k != n && k.drop (k.length - n.length) == n }
+    let ns : Rdataset := { rdclass := 1, rdtype := 2, covers := 0, ttl := 300, items := [⟨1, 2, 0, 1⟩] }
+    let a : Rdataset := { rdclass := 1, rdtype := 1, covers := 0, ttl := 300, items := [⟨1, 1, 0, 1⟩] }
+    let v0 : BVer := { nodes := [], delegs := [], changed := [] }
+    let v := bPut P (bPut P v0 [[98]] ns) [[97], [98]] a
+    v.delegs = [[[98]]] ∧ bContent (bDelRds P 1 v [[98]] 2 0).nodes = [([[97], [98]], [a])] ∧
+      (bDelRds P 1 v [[98]] 2 0).delegs = [] := by
+  decide
 
 /-! ## owner names relative or absolute -/
 
@@ -249,13 +335,32 @@ theorem rollback_identity (cfg : Cfg) (z : Nodes) (ops more : List Op) (exc : Bo
   have hr := rollback_ends (run cfg (beginWrite z) ops).1
   have hstep : (step cfg (run cfg (beginWrite z) ops).1 Op.rollback).1 = (endTxn (run cfg (beginWrite z) ops).1 false).1 := rfl
   have hend := run_ended cfg more (step cfg (run cfg (beginWrite z) ops).1 Op.rollback).1 (by rw [hstep]; exact hr.1)
-  rw [hend.1, exit_ended _ _ (by rw [hstep]; exact hr.1), hstep, hr.2, hz]
+  rw [hend, exit_ended _ _ (by rw [hstep]; exact hr.1), hstep, hr.2, hz]
   rfl
 
 /-- "… ended or read-only transactions refuse further use": once ended, every call raises `AlreadyEnded` and
 changes nothing. -/
-theorem ended_refuses (cfg : Cfg) (s : Txn) (h : s.ended = true) (op : Op) :
-    step cfg s op = (s, .error .alreadyEnded) := step_ended cfg s op h
+theorem ended_refuses (cfg : Cfg) (hgn : cfg.gn = false) (s : Txn) (h : s.ended = true) (op : Op) :
+    step cfg s op = (s, .error .alreadyEnded) := step_ended cfg s op h (Or.inl hgn)
+
+/-- Partial form for the code as it is (any `gn`): every call but `get_node` is refused once ended, and an ended
+transaction never changes again whatever is called. -/
+theorem ended_refuses_partial (cfg : Cfg) (s : Txn) (h : s.ended = true) (op : Op) :
+    (op.isGetNode = false → step cfg s op = (s, .error .alreadyEnded)) ∧ (step cfg s op).1 = s :=
+  ⟨fun hop => step_ended cfg s op h (Or.inr hop), step_ended_state cfg s op h⟩
+
+/-- The open decision point at a witness (`corpus/C10/new-get-node-after-end.json`): a writer adds `a A 10.0.0.1`
+and rolls back; as shipped (`gn = true`) `get_node(a)` still answers — with the rolled-back node — where the
+intended variant raises `AlreadyEnded`. -/
+theorem get_node_after_end_counterexample :
+    let rds : Rdataset := { rdclass := 1, rdtype := 1, covers := 0, ttl := 300, items := [⟨1, 1, 0, 1⟩] }
+    let ops : List Op := [.add [.name [[97]], .rds rds] false, .rollback, .getNode [[97]]]
+    let shipped : Cfg := { origin := [[101, 120], []], relativize := true, rdclass := 1, d09 := false, d10 := false, gn := true }
+    let intended : Cfg := { shipped with gn := false }
+    (run shipped (beginWrite []) ops).2.map errOf = [none, none, none] ∧
+      (run intended (beginWrite []) ops).2.map errOf = [none, none, some .alreadyEnded] ∧
+      (exitTxn (run shipped (beginWrite []) ops).1 false).zone = [] := by
+  decide
 
 /-- a read-only transaction refuses every mutating call (`ReadOnly` for add/replace/delete/delete_exact, an error
 for `update_serial`), and no history of calls, however it ends, changes the published zone. -/
@@ -271,17 +376,12 @@ theorem readonly_refuses (cfg : Cfg) (z : Nodes) :
   rw [exit_readOnly_zone _ _ h.2, h.1]
   rfl
 
-/-! ## the unchanged tree (DESIGN §6 D09, D10): counter-examples for the as-shipped variant -/
-
-/-- error family of a result, for decidable statements -/
-def errOf : Res → Option Err
-  | .error e => some e
-  | .ok _ => none
+/-! ## the LEGACY variants `d09` / `d10` of the model (the code before repairs 48a5b1a / 32c445c) -/
 
 /-- D09 at the witness `corpus/C10/d09-plain-relativized-absolute-owner.json`: zone `example.` relativized with
 `a A 10.0.0.1`; `txn.delete(a.example., A)` raises `KeyError` and leaves an *empty node* `a` in the version, where
 the intended variant (and the reference model) deletes the node. -/
-theorem as_shipped_d09_violates :
+theorem legacy_d09_counterexample :
     let origin : Name := [[101, 120], []]
     let z : Nodes := [([[97]], [{ rdclass := 1, rdtype := 1, covers := 0, ttl := 300, items := [⟨1, 1, 0, 1⟩] }])]
     let op : Op := .delete [.name [[97], [101, 120], []], .int 1] false
@@ -295,7 +395,7 @@ theorem as_shipped_d09_violates :
 /-- D10 at the witness `corpus/C10/d10-update-serial-default-name-absolute-zone.json`: a non-relativized zone with
 an SOA at the origin; `update_serial()` with its default name `@` raises `ValueError`, where the intended variant
 stores serial 6. -/
-theorem as_shipped_d10_violates :
+theorem legacy_d10_counterexample :
     let origin : Name := [[101, 120], []]
     let soa : Rdataset := { rdclass := 1, rdtype := 6, covers := 0, ttl := 300, items := [⟨1, 6, 0, 5⟩] }
     let z : Nodes := [(origin, [soa])]
@@ -307,26 +407,11 @@ theorem as_shipped_d10_violates :
       (step intended (beginWrite z) op).1.ver = [(origin, [{ soa with items := [⟨1, 6, 0, 6⟩] }])] := by
   decide
 
-/-- Partial form of `txn_refines_spec` for the code as shipped (any setting of the two decision points): histories
-whose mutating calls name their owner in the zone's own spelling (`NativeName`: relative owners in a relativized
-zone, absolute ones otherwise — the guard that excludes the D09/D10 trigger class) run identically under the
-as-shipped and the intended variant, hence refine the reference model.
-Full statement (false for the unchanged tree, see the two counter-examples above): the same without `hnat`. -/
-theorem as_shipped_native_partial (cfg : Cfg) (ho : WfOrigin cfg) (z : Nodes) (sz : SZone)
-    (hz : Sim cfg.rdclass z sz) (hi : Inv cfg.rdclass z) (ro : Bool) (ops : List Op) (exc : Bool)
+/-- The legacy variants and the repaired code are the same function on histories whose mutating calls name their
+owner in the zone's own spelling (`NativeName`) — i.e. the repairs changed nothing else. -/
+theorem legacy_variant_agrees_on_native_names (cfg : Cfg) (ho : WfOrigin cfg) (s : Txn) (ops : List Op)
     (hnat : ∀ op ∈ ops, ∀ n, op.owner = some n → NativeName cfg n) :
-    let s0 := if ro then beginRead z else beginWrite z
-    let t0 := if ro then sBeginRead sz else sBeginWrite sz
-    let m := run cfg s0 ops
-    let r := sRun (specCfg cfg) t0 (ops.map toSOp)
-    m = run (specCfg cfg) s0 ops ∧ m.2.map absRes = r.2 ∧
-      Sim cfg.rdclass (exitTxn m.1 exc).zone (sExit r.1 exc).zone ∧ Inv cfg.rdclass (exitTxn m.1 exc).zone := by
-  intro s0 t0 m r
-  have hrun : m = run (specCfg cfg) s0 ops := run_native cfg ho ops s0 hnat
-  have h := txn_refines_spec (specCfg cfg) ⟨rfl, rfl⟩ z sz hz hi ro ops exc
-  refine ⟨hrun, ?_⟩
-  rw [hrun]
-  exact h
+    run cfg s ops = run (modernCfg cfg) s ops := run_native cfg ho ops s hnat
 
 /-- non-vacuity of the guard: in the relativized zone `ex.` the owner `a` is native, `a.ex.` is not -/
 example :
